@@ -159,6 +159,15 @@ static void deviations_of(const char *name, const char *d, size_t n, int is_diff
       if (!mc_case("%s :: attr#%zu %.*s := [%.40s]", name, i, (int)A[i].name_len, d + A[i].name_off, v == NVALUES ? "<value of previous attribute>" : val)) continue;
       splice(&m, d, n, A[i].val_off, A[i].val_off + A[i].val_len, val, vl); TRY("attr-value");
     }
+    /* words that mean something elsewhere in the format (built-in memory attributes, type names), for the attributes that
+     * carry names and types: a document may claim a built-in, read-only attribute or another object type */
+    { static const char *KEYWORDS[] = { "Capacity", "Locality", "Bandwidth", "Latency", "NUMANode", "PU", "Machine", "MemCache", "Misc", "OSDev" };
+      size_t nl = A[i].name_len; const char *an = d + A[i].name_off;
+      int named = (nl == 4 && (!strncmp(an, "name", 4) || !strncmp(an, "type", 4))) || (nl == 15 && !strncmp(an, "target_obj_type", 15)) || (nl == 18 && !strncmp(an, "initiator_obj_type", 18));
+      if (named) for (unsigned k = 0; k < sizeof(KEYWORDS) / sizeof(KEYWORDS[0]); k++) {
+        if (!MINE() || !mc_case("%s :: attr#%zu %.*s := keyword %s", name, i, (int)nl, an, KEYWORDS[k])) continue;
+        splice(&m, d, n, A[i].val_off, A[i].val_off + A[i].val_len, KEYWORDS[k], strlen(KEYWORDS[k])); TRY("attr-keyword");
+      } }
     if (MINE() && mc_case("%s :: attr#%zu %.*s dropped", name, i, (int)A[i].name_len, d + A[i].name_off)) { splice(&m, d, n, A[i].name_off, A[i].end_off, "", 0); TRY("attr-drop"); }
     if (MINE() && mc_case("%s :: attr#%zu %.*s duplicated", name, i, (int)A[i].name_len, d + A[i].name_off)) {
       sb_reset(&m); sb_putn(&m, d, A[i].end_off); sb_putc(&m, ' '); sb_putn(&m, d + A[i].name_off, A[i].end_off - A[i].name_off); sb_putn(&m, d + A[i].end_off, n - A[i].end_off); TRY("attr-dup"); }
